@@ -41,9 +41,14 @@ RULE = ("random reductions: 4 strategies x 2 scitypes (inferred or explicit), se
         "regressor predict call made while the cutoff was before the last remembered label; "
         "distinct = distinct JSON case")
 TRUSTED = [
-    "translator/reduce_c05.py (Python ast -> Gallina integer expressions, fail-closed): the loop "
-    "bound, slice bounds and rejection test of _sliding_window_transform are regenerated on every "
-    "run as C05/Gen.v and proved equal to the model's in C05/Bridge.v",
+    "translator/reduce_c05.py (fail-closed symbolic execution of the anchored Python functions -> "
+    "canonical linear integer expressions in Gallina): allocation, loop bound, fill and truncation "
+    "bounds, target / feature columns and the rejection test of _sliding_window_transform, the window "
+    "and feedback positions of the recursive and dirrec loops and the label bounds of _get_last_window "
+    "are regenerated on every run as C05/Gen.v and proved equal to the model's in C05/Bridge.v "
+    "(unfold; lia); the interpreter's semantics of the Python subset (environments, guard clauses, "
+    "conditional values, array writes with path condition and loop, interprocedural inlining, "
+    "`isinstance` of an integer time point) is trusted",
     "the test-double regressors in props/c05.py (recording, positional weighted sums) and their "
     "Gallina twins in coq/C05/Cases.v: same arithmetic on both sides, exact in float64 "
     "(all values are integers < 2^53); the theorems quantify over ALL deterministic regressors, the "
@@ -65,8 +70,9 @@ MODELLED = [
     "the control flow of _DirectReducer/_MultioutputReducer/_RecursiveReducer/_DirRecReducer "
     "(_fit, _predict_last_window) is a hand model tied by correspondence only (the integer "
     "expressions of _sliding_window_transform, of the feedback loops and the label bounds of "
-    "_get_last_window are regenerated; the extractor also pins that every reducer class inherits "
-    "_get_last_window from _BaseWindowForecaster and writes its result into the window slots)",
+    "_get_last_window are regenerated; the extractor also checks on the symbolic value that the array "
+    "handed to every estimator.predict is built from the result of _get_last_window as resolved "
+    "through the class hierarchy, in variable-major layout)",
     "the state machine of histories (update / _update_y_X, update_predict_single, update_predict = "
     "_predict_moving_cutoff inside _detached_cutoff, refit through fit(self._y, self._X, self._fh), "
     "_set_fh of the two mixins, _format_moving_cutoff_predictions) is a hand model (coq/C05/Hist.v) "
